@@ -497,6 +497,15 @@ func (r *Run) symConv(dst *types.Basic, x value) value {
 				panic(unsupported{"float -> int conversion may overflow (implementation-defined)"})
 			}
 			tr.lo, tr.hi = lo, hi
+			if signed && r.concrete == nil {
+				// if the value is non-negative on this path, continue with max(tr, 0): equal here, and
+				// universally non-negative, which keeps later div/mod/wrap operations simple
+				if r.mustHoldQuiet(tc.Le(tc.Int64(0), tr)) {
+					nn := tc.Ite(tc.Le(tc.Int64(0), tr), tr, tc.Int64(0))
+					nn.lo, nn.hi = big.NewInt(0), hi
+					return r.mkSymInt(nn, dst.Kind())
+				}
+			}
 			return r.mkSymInt(tr, dst.Kind())
 		}
 	case symStr:
